@@ -50,8 +50,15 @@ def pred_gcc_zero_capacity(prop, w):
     return False
 
 
+def pred_affine_eq_skip_self(prop, w):
+    """The constraint that still prunes after the pass is affine_eq, it was the last one executed in that pass and
+    its bit is still set in the queue - the signature of pop_propagator's 'skip the previous propagator' rule."""
+    return w.get("constraint") == "affine_eq" and bool(w.get("queued")) and bool(w.get("last"))
+
+
 PREDICATES = {
     "gcc_zero_capacity": pred_gcc_zero_capacity,
+    "affine_eq_single_round_skip_self": pred_affine_eq_skip_self,
 }
 
 
@@ -74,9 +81,13 @@ def group_key(w):
     c = _call_of(w)
     if c:
         return "%s|%s" % (w.get("kind"), c.get("name"))
+    if w.get("mpcase"):
+        return "%s|mp|%s" % (w.get("kind"), w.get("op"))
+    if w.get("unit"):
+        return "%s|unit|%s" % (w.get("kind"), (w.get("unit") or {}).get("heuristic"))
     ps = _props_of(w)
     names = ",".join(sorted(set(n for _, n, _ in ps)))
-    return "%s|%s|%s" % (w.get("kind"), names, w.get("where", ""))
+    return "%s|%s|%s|%s" % (w.get("kind"), names, w.get("where", ""), w.get("constraint", ""))
 
 
 def short(w):
@@ -84,6 +95,11 @@ def short(w):
     if c:
         return "%s %s(box=%s, params=%s) status=%s out=%s" % (
             w.get("kind"), c.get("name"), c.get("box"), c.get("params"), w.get("status"), w.get("out"))
+    if w.get("mpcase"):
+        c = w["mpcase"]
+        return "%s op=%s objective=%s split(k=%s, var=%s) schedule=%s model=%s cfg=%s" % (
+            w.get("kind"), w.get("op"), w.get("ovar"), c.get("k"), c.get("var"), w.get("schedule"), c.get("model"),
+            c.get("cfg"))
     if w.get("model"):
         m = w["model"]
         return "%s model(doms=%s idx=%s off=%s props=%s) cfg=%s" % (
